@@ -49,11 +49,23 @@ func ExploreScenario(c *fw.Ctx, prop string, sc *Scenario) {
 	rechecks := 0
 	violated := false
 	var lastOutcome string
-	st := vrt.Explore(sc.Bound, func(prefix []int) *vrt.Sched {
+	// the last worker is reserved for the race pass (it runs concurrently with the exploration)
+	shard, of := c.Shard, c.Of
+	if of > 1 {
+		of--
+		if shard == of {
+			return
+		}
+	}
+	maxRechecks := 20
+	if of > 1 {
+		maxRechecks = 3
+	}
+	st := vrt.ExploreSharded(sc.Bound, shard, of, func(prefix []int) *vrt.Sched {
 		s, sig, desc, outcome := runOnce(sc, prefix)
 		lastOutcome = outcome
 		c.Count("transitions", int64(len(s.Trace)))
-		if rechecks < 20 {
+		if rechecks < maxRechecks {
 			// R2: the same schedule must give the same trace and the same observation
 			rechecks++
 			c.Count("determinism_rechecks", 1)
@@ -107,7 +119,8 @@ func ExploreScenario(c *fw.Ctx, prop string, sc *Scenario) {
 	for _, d := range st.Diverged {
 		c.Inconclusive("harness: schedule replay diverged: " + d)
 	}
-	c.R.Bounds["scenario:"+sc.Name] = fmt.Sprintf("executions=%d max_points=%d preemption_bound=%d bound_cut_something=%v deadlocks=%d", st.Executions, st.MaxPoints, sc.Bound, st.BoundReached, st.Deadlocks)
+	c.Count("executions:"+sc.Name, st.Executions)
+	c.R.Bounds["scenario:"+sc.Name] = fmt.Sprintf("preemption_bound=%d max_points=%d (executions per scenario: counters executions:<name>; explored in %d shards split at the root execution's alternatives)", sc.Bound, st.MaxPoints, c.Of)
 	if st.Stopped && !violated && c.R.Exhaustive {
 		c.R.Exhaustive = false
 		c.R.Notes = append(c.R.Notes, "exploration of scenario "+sc.Name+" stopped early")
